@@ -34,6 +34,7 @@ import (
 	"time"
 
 	"github.com/echovault/sugardb/internal/constants"
+	"github.com/echovault/sugardb/internal/verifhook"
 	"github.com/sethvargo/go-retry"
 	"github.com/tidwall/resp"
 )
@@ -80,7 +81,9 @@ func ReadMessage(r io.Reader) ([]byte, error) {
 	chunk := make([]byte, 8192)
 
 	for {
+		verifhook.Point("readmessage.read.before")
 		n, err := reader.Read(chunk)
+		verifhook.Point("readmessage.read.after")
 		if err != nil && errors.Is(err, io.EOF) {
 			break
 		}
